@@ -782,6 +782,63 @@ func ruleOrderAgreement(c *eng.Ctx) {
 			name+" creates an index iterator without consulting CanBeOrderedByIndex: when the planner relies on the index for the requested order (and drops the order node) this iterator yields the documents in another order")
 	}
 	c.Floor(rule, n, 4)
+	// both answers of CanBeOrderedByIndex are used: the "ordered" answer must not be discarded, and an
+	// iterator that makes one pass per listed value (inIndexIterator) visits the values in index order
+	// when the index is relied on: its value list is sorted under the "ordered" answer
+	for _, g := range c.P.FuncsIn("internal/db/fetcher") {
+		if g.Decl.Body == nil || isTestFile(c.P, g) {
+			continue
+		}
+		ginfo := g.Pkg.TypesInfo
+		buildsIn := false
+		var valuesObj types.Object
+		ast.Inspect(g.Decl.Body, func(m ast.Node) bool {
+			if cl, ok := m.(*ast.CompositeLit); ok && eng.TypeName(ginfo.TypeOf(cl)) == "internal/db/fetcher.inIndexIterator" {
+				buildsIn = true
+				for _, el := range cl.Elts {
+					if kv, ok := el.(*ast.KeyValueExpr); ok {
+						if id, ok := kv.Key.(*ast.Ident); ok && id.Name == "inValues" {
+							valuesObj = eng.ObjOf(ginfo, kv.Value)
+						}
+					}
+				}
+			}
+			return true
+		})
+		if !buildsIn {
+			continue
+		}
+		var orderedObj types.Object
+		ast.Inspect(g.Decl.Body, func(m ast.Node) bool {
+			if as, ok := m.(*ast.AssignStmt); ok && len(as.Rhs) == 1 && len(as.Lhs) == 2 {
+				if call, ok := ast.Unparen(as.Rhs[0]).(*ast.CallExpr); ok && eng.CalleeName(ginfo, call) == "internal/db/fetcher.CanBeOrderedByIndex" {
+					orderedObj = eng.ObjOf(ginfo, as.Lhs[0])
+				}
+			}
+			return true
+		})
+		sortedUnderOrdered := false
+		if orderedObj != nil && valuesObj != nil {
+			ast.Inspect(g.Decl.Body, func(m ast.Node) bool {
+				is, ok := m.(*ast.IfStmt)
+				if !ok || !mentionsObj(ginfo, is.Cond, orderedObj) {
+					return true
+				}
+				ast.Inspect(is.Body, func(x ast.Node) bool {
+					if call, ok := x.(*ast.CallExpr); ok {
+						nm := eng.CalleeName(ginfo, call)
+						if (strings.HasPrefix(nm, "slices.Sort") || strings.HasPrefix(nm, "sort.S")) && len(call.Args) > 0 && eng.ObjOf(ginfo, call.Args[0]) == valuesObj {
+							sortedUnderOrdered = true
+						}
+					}
+					return true
+				})
+				return true
+			})
+		}
+		c.Check(sortedUnderOrdered, rule, shortFn(g)+":in-values-visited-in-index-order", g.Decl.Pos(), "the listed values are sorted when the index is relied on for the order",
+			"the iterator makes one pass over the index per listed value but does not sort the values when CanBeOrderedByIndex reports that the index provides the requested order: the planner has dropped the order node, so `_in: [5, 2, 1]` with `order:` comes back in list order")
+	}
 }
 
 // ruleIndexUpdateTable: decision table of isUpdatingIndexedFields over (old value present, new value
